@@ -4,7 +4,7 @@ judged by TLC against spec/Algebra.tla through spec/TraceRel.tla."""
 import json, os, itertools, random, concurrent.futures, copy
 import vlib, sqlgen
 
-UNSUPPORTED_PAT = ("not yet implemented", "not implemented", "not yet supported", "not supported",
+UNSUPPORTED_PAT = ("not yet implemented", "not implemented", "not yet supported", "not supported", "unsupported",
                    "unimplemented")
 
 
@@ -47,8 +47,9 @@ def obs_record(step, style=None):
     o = step[-1] if step else {"outcome": "missing"}
     out = o.get("outcome")
     rec = {"outcome": out, "rows": [], "cls": [], "schema": [], "btypes": [], "sbase": [],
-           "variants": [], "msg": ""}
+           "variants": [], "msg": "", "names": []}
     if out == "rows":
+        rec["names"] = [n for n, _ in o["schema"]]
         rec["rows"] = sqlgen.enc_rows(o["rows"], style)
         rec["schema"] = [t for _, t in o["schema"]]
         rec["cls"] = [sqlgen.type_class(t) for _, t in o["schema"]]
@@ -74,10 +75,11 @@ def has_unencodable(rows):
 class RelRun:
     """Accumulates (query, db, config) cases, executes, judges."""
 
-    def __init__(self, rep, fam, nworkers=14, case_timeout=60):
+    def __init__(self, rep, fam, nworkers=14, case_timeout=20):
         self.rep = rep
         self.fam = fam
         self.items = []       # dicts: id, tag, q, db(name->{names,cols,rows}), cfg, style, sql
+        self.pairs = []       # (item id, item id): same statement under two configurations
         self.nworkers = nworkers
         self.case_timeout = case_timeout
         self.unrenderable = 0
@@ -100,7 +102,7 @@ class RelRun:
         # group by (db, cfg, style) -> one vdriver case (one session) with many queries
         groups = {}
         for it in self.items:
-            key = json.dumps([it["db"], it["cfg"], it["style"]], sort_keys=True)
+            key = json.dumps([it["db"], it["cfg"], it["style"], it.get("knobs")], sort_keys=True)
             groups.setdefault(key, []).append(it)
         cases = []
         for gi, (key, its) in enumerate(groups.items()):
@@ -111,17 +113,21 @@ class RelRun:
             for it in its:
                 st = {"sql": it["sql"], "sched": True}
                 steps.append(st)
-            cases.append({"id": gi, "rt": cfg_rt(first["cfg"]), "steps": steps,
+            cases.append({"id": gi, "rt": cfg_rt(first["cfg"]), "steps": steps, "knobs": first.get("knobs") or {},
                           "_its": [it["id"] for it in its], "_nsetup": nsetup,
                           "timeout": self.case_timeout})
         drv = vlib.Driver(nworkers=self.nworkers, case_timeout=self.case_timeout)
         send = [{k: v for k, v in c.items() if not k.startswith("_")} for c in cases]
+        t0 = vlib.time.time()
         results = drv.run(send)
+        vlib.log(f"[exec] {self.fam}: {len(self.items)} statements in {len(cases)} sessions, "
+                 f"{vlib.time.time()-t0:.1f}s")
         for c, res in zip(cases, results):
             ids = c["_its"]
             if res is None or "steps" not in res:
                 # abort / timeout: attribute to the first unanswered query by re-running singly
                 why = "abort" if res and res.get("abort") else "timeout" if res and res.get("timeout") else "fatal"
+                vlib.log(f"[exec] session {c['id']} ended with {why}; isolating {len(ids)} statements")
                 self._isolate(c, res, why)
                 continue
             steps = res["steps"]
@@ -144,7 +150,7 @@ class RelRun:
         setup = case["steps"][:case["_nsetup"]]
         singles = []
         for k, iid in enumerate(ids):
-            singles.append({"id": iid, "rt": case["rt"], "steps": setup + [case["steps"][case["_nsetup"] + k]],
+            singles.append({"id": iid, "rt": case["rt"], "knobs": case.get("knobs") or {}, "steps": setup + [case["steps"][case["_nsetup"] + k]],
                             "timeout": self.case_timeout})
         drv = vlib.Driver(nworkers=self.nworkers, case_timeout=self.case_timeout)
         results = drv.run(singles)
@@ -180,6 +186,16 @@ class RelRun:
                 pre_mismatch.append({"mismatch": it["id"], "why": "value-domain", "exp": None})
                 continue
             lines.append(self.trace_line(it))
+        for k, (ia, ib) in enumerate(self.pairs):
+            a, b = self.items[ia], self.items[ib]
+            if any(x["obs"]["outcome"] == "rows" and has_unencodable(x["obs"]["rows"]) for x in (a, b)):
+                continue
+            ln = self.trace_line(a)
+            del ln["obs"]
+            ln["id"] = 1000000 + k
+            ln["a"], ln["b"] = a["obs"], b["obs"]
+            ln["admit_error"] = a["admit_error"] or a.get("admit_pair_error", False)
+            lines.append(ln)
         # chunk by estimated judging cost (the reference evaluator is polynomial in table sizes)
         def cost(line):
             n = 1
@@ -220,6 +236,20 @@ class RelRun:
     def report(self, mism, sig_extra=None, nontrivial=None):
         rep = self.rep
         byid = {m["mismatch"]: m for m in mism}
+        for mid, m in byid.items():
+            if mid >= 1000000:
+                ia, ib = self.pairs[mid - 1000000]
+                a, b = self.items[ia], self.items[ib]
+                sig = {"family": self.fam, "tag": a["tag"].split("@")[0], "why": m["why"],
+                       "a": a["obs"]["outcome"], "b": b["obs"]["outcome"]}
+                sig.update({k: v for k, v in case_features(a, m).items() if k != "delta"})
+                for side, x in (("a", a), ("b", b)):
+                    if x["obs"]["outcome"] in ("panic", "abort", "error"):
+                        sig["msg_" + side] = vlib.re.sub(r"\d+", "#", x["obs"].get("msg", ""))[:160]
+                self.rep.mismatch(sig, {"sql": a["sql"], "db": {t: d["rows"] for t, d in a["db"].items()},
+                                        "setup": sqlgen.db_setup_sql(a["db"], a["style"]),
+                                        "cfg_a": a["cfg"], "cfg_b": b["cfg"], "sql_b": b["sql"],
+                                        "observed_a": a["obs"], "observed_b": b["obs"]})
         fam = rep.cov["families"].setdefault(self.fam, {"cases": 0, "rows": 0, "unsupported": 0,
                                                         "mismatches": 0, "unrenderable": 0})
         fam["unrenderable"] += self.unrenderable
@@ -259,6 +289,30 @@ class RelRun:
         rep.cov["distinct_nontrivial"] += len(seen)
 
 
+def _streams_leftjoin(q):
+    """Is there a LEFT join reachable from q through streaming (non-blocking) operators?"""
+    k = q.get("k")
+    if k == "join":
+        return q["jt"] == "left" or _streams_leftjoin(q["l"]) or _streams_leftjoin(q["r"])
+    if k in ("filter", "project"):
+        return _streams_leftjoin(q["c"])
+    if k == "union":
+        return _streams_leftjoin(q["l"]) or _streams_leftjoin(q["r"])
+    if k == "with":
+        return _streams_leftjoin(q["c"])
+    return False
+
+
+def limit_over_leftjoin(x):
+    if isinstance(x, dict):
+        if x.get("k") == "limit" and x["c"].get("k") != "sort" and _streams_leftjoin(x["c"]):
+            return True
+        return any(limit_over_leftjoin(v) for v in x.values())
+    if isinstance(x, list):
+        return any(limit_over_leftjoin(v) for v in x)
+    return False
+
+
 def case_features(it, m):
     """Features of a failing case, computed mechanically from the case and the judge's expectation;
     they make known-finding signatures specific (a different failure of the same query is not matched)."""
@@ -273,6 +327,7 @@ def case_features(it, m):
         ce, co = Counter(exp), Counter(obs)
         extra, missing = co - ce, ce - co
         f["delta"] = "both" if extra and missing else "extra" if extra else "missing" if missing else "order"
+    f["limit_over_leftjoin"] = limit_over_leftjoin(it["q"])
     bs = it["cfg"].get("batch_size")
     f["bs_lt_rows"] = bs is not None and any(len(d["rows"]) > bs for d in it["db"].values())
     return f
@@ -285,3 +340,103 @@ def make_db(tables, width=2, names=("a", "b", "c", "d"), classes=None):
         cl = classes[t] if classes and t in classes else ["i"] * (len(rows[0]) if rows else width)
         db[t] = {"names": list(names[:len(cl)]), "cols": cl, "rows": rows}
     return db
+
+
+# --------------------------------------------------------------------------- shared generators
+def gen_tables(rep, name, mr=3, mv=2):
+    gt = gen("GenJoin", {"What": '"tables"', "MaxRows": mr, "MaxVal": mv}, name)
+    rep.add_tlc(gt, f"GEN tables(width 2, <= {mr} rows, {{NULL,0..{mv}}})")
+    return [p["rows"] for p in gt.printed if "rows" in p]
+
+
+ABS_CLASSES = {"A": ["i", "i"], "B": ["i", "i"], "S": ["i", "t"]}
+ABS_NAMES = {"A": ["a", "b"], "B": ["a", "b"], "S": ["a", "s"]}
+
+
+def abs_db(ta, tb, ts):
+    return {"A": {"names": ["a", "b"], "cols": ["i", "i"], "rows": ta},
+            "B": {"names": ["a", "b"], "cols": ["i", "i"], "rows": tb},
+            "S": {"names": ["a", "s"], "cols": ["i", "t"], "rows": ts}}
+
+
+def pick_dbs(tables, rng, n):
+    """n databases over A, B, S: fixed corner cases first, then seeded random triples."""
+    full = [t for t in tables if len(t) == max(len(x) for x in tables)]
+    nullish = [t for t in tables if t and any(v == [] for r in t for v in r)]
+    dup = [t for t in tables if len(t) >= 2 and any(t[i] == t[i + 1] for i in range(len(t) - 1))]
+    out = []
+    fixed = [
+        ([[[0], [1]], [[1], [1]], [[1], [2]]], [[[1], [0]], [[1], [1]], [[2], []]], [[[0], [0]], [[1], [1]], [[2], [1]]]),
+        ([], [[[1], [1]]], [[[1], [0]]]),
+        ([[[], [1]], [[], []], [[1], []]], [[[], [0]], [[1], [1]]], [[[], []], [[1], [2]]]),
+        ([[[1], [1]], [[1], [1]], [[2], [0]]], [[[1], [1]], [[1], [1]]], [[[1], [1]], [[1], [1]], [[0], [2]]]),
+        ([], [], []),
+    ]
+    for f in fixed[:n]:
+        out.append(abs_db(*f))
+    while len(out) < n:
+        pool = rng.choice([tables, full, nullish or tables, dup or tables])
+        out.append(abs_db(rng.choice(pool), rng.choice(pool), rng.choice(pool)))
+    return out
+
+
+def gen_select(rep, name, depth, simulate=None, seed=1, timeout=900, sample_k=1):
+    """Query terms from GenSelect.tla: BFS to `depth` (optionally a random 1/sample_k sample), or
+    -simulate num=N, where every successor state TLC generates along the random behaviours is a
+    candidate and a 1/sample_k sample of them is emitted."""
+    cfg = ("SPECIFICATION Spec\nINVARIANT Emit\nCHECK_DEADLOCK FALSE\nCONSTANTS\n  MaxDepth = %d\n  SampleK = %d\n"
+           % (depth, sample_k))
+    args = []
+    if simulate:
+        args = ["-simulate", f"num={simulate}", "-depth", str(depth + 1), "-seed", str(seed)]
+    r = vlib.tlc("GenSelect", cfg, name, workers=(1 if simulate else 6), timeout=timeout, args=args, heap="6g")
+    if r.error or (not r.ok and not simulate):
+        raise vlib.ToolError(f"GenSelect failed: {r.error or r.violated}: {r.out[-1200:]}")
+    rep.add_tlc(r, f"GEN GenSelect depth<={depth}" + (f" simulate num={simulate}" if simulate else " BFS"))
+    seen, out = set(), []
+    for p in r.printed:
+        if "q" not in p:
+            continue
+        key = json.dumps(p["q"], sort_keys=True)
+        if key in seen:
+            continue
+        seen.add(key)
+        out.append(p)
+    return out
+
+
+def shape(q):
+    """Short structural tag of a query term (for signatures and coverage tables)."""
+    k = q["k"]
+    if k == "scan":
+        return q["t"]
+    if k == "join":
+        return f"{q['jt']}{'L' if q.get('lateral') else ''}J({shape(q['l'])},{shape(q['r'])})"
+    if k == "union":
+        return f"U{'A' if q['all'] else ''}({shape(q['l'])},{shape(q['r'])})"
+    if k == "with":
+        return f"with({shape(q['body'])};{shape(q['c'])})"
+    if k == "values":
+        return "values"
+    if k == "agg":
+        fs = "+".join(a["f"] + ("*" if a["star"] else "") + ("D" if a["dist"] else "") +
+                      ("F" if a["filt"]["k"] != "none" else "") for a in q["aggs"])
+        return f"agg[{len(q['keys'])};{fs}]({shape(q['c'])})"
+    if k == "filter":
+        return f"filter[{pshape(q['p'])}]({shape(q['c'])})"
+    if k == "project":
+        return f"project[{','.join(pshape(e) for e in q['es'])}]({shape(q['c'])})"
+    return f"{k}({shape(q['c'])})"
+
+
+def pshape(e):
+    k = e["k"]
+    if k in ("col", "lit"):
+        return k[0]
+    if k in ("scalar", "exists", "insub", "quant"):
+        return f"{k}<{shape(e['q'])}>"
+    subs = [pshape(v) for kk, v in e.items() if isinstance(v, dict) and "k" in v]
+    for kk, v in e.items():
+        if isinstance(v, list):
+            subs += [pshape(x) for x in v if isinstance(x, dict) and "k" in x]
+    return k + ("(" + ",".join(subs) + ")" if subs else "")
